@@ -1,15 +1,19 @@
 import QipVerif.Util.Proto
 import QipVerif.Model.Sched
+import QipVerif.Gen.SchedRule
 /-! Driver for the scheduler model (C05, C11).
 
-Instruction syntax: `NAME:t,t:c,c:dur[:sc]` (`sc` = 0/1: name in `_SELF_COMMUTING_GATES`, default 1), several joined by `|` (targets / controls already
+Instruction syntax: `NAME:t,t:c,c:dur[:sc]`, several joined by `|` (targets / controls already
 sorted as `Instruction.__init__` leaves them; empty controls = `None`; `dur` an integer
-numerator).
+numerator).  The flag `sc` ("the name is in `_SELF_COMMUTING_GATES`") is computed from the set regenerated
+from the tree under test (`Gen.SchedRule.inSet`); an explicit fifth field `0|1` overrides it (manual use only).
 
-* `comm g=A|B`                                              →  `ok 0|1`    (`commutation_rules`)
-* `scnames`                                                  →  `ok X,Y,…` (`patchNames`)
+* `comm g=A|B`                                              →  `ok 0|1`    (`commRules`, the rule of the model)
+* `commgen g=A|B`                                           →  `ok 0|1`    (`Gen.SchedRule.commutationRules`, regenerated from the source)
+* `scnames`                                                  →  `ok X,Y,…` (the regenerated set; `none` when the module has none)
 * `share g=A|B`                                             →  `ok 0|1`    (`not qubit_constraint`)
-* `sched method=ASAP|ALAP perm=0|1 gates=… [shuf=π;π;…] [fix=0|1]` (`fix`: repaired conflict-edge recording) →
+* `sched method=ASAP|ALAP perm=0|1 gates=… [shuf=π;π;…] [fix=0|1]` (`fix`: repaired conflict-edge recording; default
+  `Gen.SchedRule.conflictFix`, read from the tree) →
   `ok used=<#shuffles> cycles=a,b;c;… idx=… starts=… edges=i>j,…`
   (`cycles` as returned with `return_cycles_list=True`, `idx` = `gate_cycles_indices`,
   `starts` = `instruction_start_time` numerators, `edges` = sorted dependency edges)
@@ -22,7 +26,7 @@ def parseIns (s : String) : Option Ins :=
   match s.splitOn ":" with
   | [nm, ts, cs, d] =>
     match natList? ts, natList? cs, d.toInt? with
-    | some t, some c, some dd => some ⟨nm, t, c, dd, true⟩
+    | some t, some c, some dd => some ⟨nm, t, c, dd, Gen.SchedRule.inSet nm⟩
     | _, _, _ => none
   | [nm, ts, cs, d, f] =>
     match natList? ts, natList? cs, d.toInt? with
@@ -46,7 +50,14 @@ def step (line : String) : String :=
     match (field? fs "g").bind parseGates with
     | some [a, b] => b2s (commRules a b)
     | _ => "bad-op"
-  | some "scnames" => "ok " ++ ",".intercalate patchNames
+  | some "commgen" =>
+    match (field? fs "g").bind parseGates with
+    | some [a, b] => b2s (Gen.SchedRule.commutationRules a b)
+    | _ => "bad-op"
+  | some "scnames" =>
+    match Gen.SchedRule.selfCommuting with
+    | some l => "ok " ++ ",".intercalate l
+    | none => "none"
   | some "share" =>
     match (field? fs "g").bind parseGates with
     | some [a, b] => b2s (share a b)
@@ -63,7 +74,7 @@ def step (line : String) : String :=
         if m != "ASAP" && m != "ALAP" then "bad-op" else
         if ns.isEmpty then "ok used=0 cycles= idx= starts= edges=" else
         if ns.all (fun i => i.used.isEmpty) then "err noqubits" else
-        let cfg : Cfg := ⟨m == "ALAP", p != 0, sh, (fNat? fs "fix").getD 0 != 0⟩
+        let cfg : Cfg := ⟨m == "ALAP", p != 0, sh, match fNat? fs "fix" with | some f => f != 0 | none => Gen.SchedRule.conflictFix⟩
         let cyc := gateCycles cfg ns
         let e := dedupSorted ns.length (depEdges cfg.allowPerm ns)
         s!"ok used={shufflesUsed cfg ns} cycles={showCycles cyc} idx={showNats (cycleIndices ns.length cyc)} starts={showInts (pulseStarts cfg ns)} edges={",".intercalate (e.map fun p => s!"{p.1}>{p.2}")}"
